@@ -90,6 +90,7 @@ def _LimitWorker():
 
 
 _line_cache = {}
+_unexpected = [0]     # per worker process
 
 
 def _Rules(case):
@@ -147,11 +148,22 @@ def _UnitCase(arg):
           strlit._FlagValueExpr(case['text'][0][1]))
       return U.LogicaProgram.UseFlagsAsParameters(holder, lit)
     for via, fn in (('param', Param), ('flagvalue', Flag)):
-      st, out = _Guarded(fn, timeout)
+      # Circuit breaker: a worker that has seen many unexpected timeouts (a
+      # massively broken implementation) stops spending seconds per case.
+      n = _unexpected[0]
+      if n == 20:
+        # ... and lowers its own memory ceiling so that blow-ups end sooner.
+        limit = _VmSize() + MEM_LIMIT // 8
+        resource.setrlimit(resource.RLIMIT_AS,
+                           (limit, resource.getrlimit(resource.RLIMIT_AS)[1]))
+        _unexpected[0] = n = 21
+      st, out = _Guarded(fn, timeout if n < 20 else min(timeout, 0.2))
       if st == 'timeout' and not case.get('grows'):
-        # Not predicted to grow: make sure it is not the machine (CPU clock,
-        # but page faults after fork count too) before recording a timeout.
-        st, out = _Guarded(fn, 8 * timeout)
+        _unexpected[0] += 1
+        if n < 5:
+          # Not predicted to grow: make sure it is not the machine (CPU
+          # clock, but page faults after fork count too) before recording it.
+          st, out = _Guarded(fn, 8 * timeout)
       rec = {'id': '%s/%s/unit' % (case['id'], via), 'def': case['def'],
              'usr': case['usr'], 'text': case['text'], 'via': via,
              'level': 'unit', 'd': dialect, 'status': st,
@@ -194,7 +206,10 @@ def _PipeCase(arg):
         program = m['universe'].LogicaProgram(rules, user_flags=user)
         program.FormattedPredicateSql(pred)
         return program.execution
-      st, ex = _Guarded(Go, timeout + (3 if case.get('grows') else 30))
+      st, ex = _Guarded(Go, timeout + (
+          3 if case.get('grows') or _unexpected[0] >= 3 else 30))
+      if st == 'timeout' and not case.get('grows'):
+        _unexpected[0] += 1
       out = ''
       detail = ex if st == 'internal' else ''
       if st == 'ok':
